@@ -2,6 +2,7 @@ package pxw
 
 import (
 	"fmt"
+	"runtime"
 	"testing"
 	"time"
 
@@ -22,6 +23,9 @@ type C14 struct{}
 
 func (C14) ID() string { return "C14" }
 
+// c14AllocLimit: more than this for one short session is an allocation the peer talked the proxy into.
+const c14AllocLimit = 256 << 20
+
 var c14Streams = []string{"client->proxy-c", "db->proxy-d"}
 
 func (C14) Explore(x *kernel.Explorer, seed uint64) {
@@ -35,11 +39,11 @@ func (C14) Explore(x *kernel.Explorer, seed uint64) {
 		}
 		nf := 1 + r.Intn(3)
 		for k := 0; k < nf; k++ {
-			// Damage that keeps the framing of later messages intact: bit flips inside the
-			// payload of a message in flight (type bytes and inner length fields included),
-			// or a length field below 4. Misframing is deliberately not injected: it turns
-			// random payload bytes into length fields that declare gigabytes, which the proxy
-			// pre-allocates honestly (observed: 2-4 GiB and tens of seconds per connection).
+			// Damage of one message in flight: bit flips inside its payload (type bytes and inner
+			// length fields included), a length field below 4, a length field that declares up to
+			// 4 GiB, the message cut short, a 4-byte field set to all ones, a foreign well-framed
+			// message in front of it. (Before the allocation fixes in /repo the proxy allocated
+			// whatever a length field declared, 2-4 GiB per connection.)
 			f := kernel.Fault{Site: c14Streams[r.Intn(2)], Nth: 2 + r.Intn(2*n+4), Kind: "corrupt-payload"}
 			f.Arg = int64(r.Intn(4000))<<8 | int64(1<<uint(r.Intn(8)))
 			if r.Chance(1, 8) {
@@ -50,6 +54,8 @@ func (C14) Explore(x *kernel.Explorer, seed uint64) {
 				// a message cut to a drawn length (0..47 bytes) with a matching length field
 				f.Kind = "truncate-message"
 				f.Arg |= int64(min(r.Intn(48), r.Intn(24))) << 20 // short cuts more often: headers end early
+			} else if r.Chance(1, 10) {
+				f.Kind = "giant-length"
 			} else if r.Chance(1, 8) {
 				f.Kind = "ones-field"
 			} else if r.Chance(1, 8) {
@@ -114,7 +120,13 @@ func (C14) Run(t *testing.T, plan *kernel.Plan, keepLog bool) *kernel.Result {
 			// stored cells are damaged envelopes (storage fault)
 			pw.DB.Corrupt = c14CorruptCells()
 		}
+		var m0, m1 runtime.MemStats
+		runtime.ReadMemStats(&m0)
 		run := pw.RunSession(owner, script)
+		runtime.ReadMemStats(&m1)
+		if grown := m1.TotalAlloc - m0.TotalAlloc; grown > c14AllocLimit {
+			w.Violate("C14", "allocation-bounded", "pg/session", fmt.Sprintf("a session that exchanged %d bytes made the process allocate %d MiB", len(run.ToDB.Log)+len(run.FromDB.Log)+len(run.ToClient.Log)+len(run.FromCl.Log), grown>>20))
+		}
 		for i, p := range pw.Panics {
 			stack := ""
 			if i < len(pw.Stacks) {
